@@ -4013,3 +4013,93 @@ func E5WidthIDSpace(c *core.Ctx, r *core.Report) {
 	r.Count("E5.width-lookups", n)
 	r.Floor("E5.width-lookups", 1)
 }
+
+// E5DictCompleteBeforeWrite: a dictionary is complete when it is written.
+func E5DictCompleteBeforeWrite(c *core.Ctx, r *core.Report) {
+	r.Rule("E5.dict-complete-before-write", "PDF writer: a local dictionary (pdfDict) or array that a function fills entry by entry is serialised at the point where it is handed to a writing call (writeVal, write, writeObject, …). No entry is assigned after the first such call in the same function: it would change the Go value and not the file. The document language is added to the catalog conditionally, after the other entries — when the catalog object is written before that, SetLang has no effect and nothing else changes")
+	p := c.MustPkg(pdfRel)
+	info := p.TypesInfo
+	n := 0
+	for _, fd := range core.AllFuncDecls(p) {
+		if fd.Body == nil || strings.HasSuffix(c.Fset.Position(fd.Pos()).Filename, "_test.go") {
+			continue
+		}
+		// local dictionaries with entry assignments
+		type ent struct {
+			pos token.Pos
+			src string
+		}
+		entries := map[types.Object][]ent{}
+		ast.Inspect(fd.Body, func(m ast.Node) bool {
+			as, ok := m.(*ast.AssignStmt)
+			if !ok {
+				return true
+			}
+			for _, l := range as.Lhs {
+				ie, ok := core.Unparen(l).(*ast.IndexExpr)
+				if !ok {
+					continue
+				}
+				id, ok := core.Unparen(ie.X).(*ast.Ident)
+				if !ok {
+					continue
+				}
+				o := core.ObjOf(info, id)
+				if v, ok := o.(*types.Var); !ok || v.IsField() || v.Parent() == p.Types.Scope() {
+					continue
+				}
+				if nt, ok := o.Type().(*types.Named); !ok || (nt.Obj().Name() != "pdfDict" && nt.Obj().Name() != "pdfArray") {
+					continue
+				}
+				entries[o] = append(entries[o], ent{as.Pos(), c.Src(as)})
+			}
+			return true
+		})
+		if len(entries) == 0 {
+			continue
+		}
+		// first hand-over of each dictionary to a writing call
+		firstWrite := map[types.Object]token.Pos{}
+		ast.Inspect(fd.Body, func(m ast.Node) bool {
+			call, ok := m.(*ast.CallExpr)
+			if !ok {
+				return true
+			}
+			f := core.CalleeOf(info, call)
+			if f == nil || !strings.HasPrefix(strings.ToLower(f.Name()), "write") {
+				return true
+			}
+			for _, a := range call.Args {
+				if id, ok := core.Unparen(a).(*ast.Ident); ok {
+					if o := core.ObjOf(info, id); entries[o] != nil {
+						if cur, ok := firstWrite[o]; !ok || call.Pos() < cur {
+							firstWrite[o] = call.Pos()
+						}
+					}
+				}
+			}
+			return true
+		})
+		for o, es := range entries {
+			w, written := firstWrite[o]
+			if !written {
+				continue
+			}
+			n++
+			key := fmt.Sprintf("pdf.%s|%s is complete when it is written", core.FuncName(fd), o.Name())
+			bad := ""
+			for _, e := range es {
+				if e.pos > w && bad == "" {
+					bad = fmt.Sprintf("`%s` (%s) comes after `%s` was handed to a writing call (%s): the entry never reaches the file", e.src, c.Pos(e.pos), o.Name(), c.Pos(w))
+				}
+			}
+			if bad == "" {
+				r.OK("E5.dict-complete-before-write", key, c.Pos(w), "")
+			} else {
+				r.Fail("E5.dict-complete-before-write", key, c.Pos(w), bad)
+			}
+		}
+	}
+	r.Count("E5.dicts-filled-then-written", n)
+	r.Floor("E5.dicts-filled-then-written", 2)
+}
